@@ -22,6 +22,7 @@ CONSTANTS Seed,        \* pattern seed (VERIF_SEED mod 32749)
           MaxByte,     \* counts 0..MaxByte for byte kernels (crc32c, match_*)
           MaxMem,      \* counts 0..MaxMem for memcpy / memset
           Large,       \* a few large counts (all kernels)
+          Huge,        \* counts beyond 2^19 for the counting kernel only (accumulators narrower than the count wrap there)
           NRand,       \* number of random patterns per (kernel, count)
           FullRun      \* for run searches: every mismatch position is tried for counts <= FullRun
 VARIABLE c
@@ -62,13 +63,15 @@ Counts(k) ==
     ELSE IF k \in {"crc32c", "match_copy", "match_length"} THEN (0..MaxByte) \cup Large
     ELSE IF k \in {"memset", "memcpy"} THEN (0..MaxMem) \cup Large
     ELSE IF k = "bitunpack" THEN {s[1] * 100 + s[2] : s \in BitShapes}     \* group key only
+    ELSE IF k = "count_non_nulls" THEN (0..MaxElem) \cup Large \cup Huge
     ELSE (0..MaxElem) \cup Large
 
 RunSet(n, lo) == IF n <= FullRun THEN lo..n
                  ELSE {r \in {lo, 1, 2, 3, 4, 7, 8, 15, 16, 17, n \div 2, n - 17, n - 16, n - 9, n - 8, n - 5, n - 4, n - 3, n - 2, n - 1, n} : r >= lo /\ r <= n}
 
 Pats(k, n) ==
-    IF k = "find_run_length_i32" THEN (IF n = 0 THEN {0} ELSE RunSet(n, 1))
+    IF n \in Huge THEN {0, 1}            \* all present / every fifth present
+    ELSE IF k = "find_run_length_i32" THEN (IF n = 0 THEN {0} ELSE RunSet(n, 1))
     ELSE IF k = "match_length" THEN RunSet(n, 0)
     ELSE IF k = "match_copy" THEN Offsets
     ELSE IF k = "fill_def_levels" THEN 0..4
